@@ -134,7 +134,7 @@ impl Prop for C08 {
         "C08"
     }
     fn rule(&self) -> String {
-        "six complete families, both backends, every case in a worker subprocess with a 10 s watchdog, 8 MiB stack, 6 GiB address-space cap; compile + Display + contextualize of every error and warning: (1) all sequences of <=L tokens (quick 3, thorough 4) over a 40-token alphabet as whole input / module body / after `A ::=`; (2) every byte prefix of the 35 feature modules, token-boundary prefixes of the smallest real-world modules, and every single-token edit (delete, duplicate, swap, replace by / insert each of the 40 tokens) at every token position of the feature modules (thorough: + 30 real-world modules); (3) é/€/𝄞 inserted at every character position of the feature modules; (4) every feature module left inside an unterminated comment (line, block depth 1..3), cstring, bstring, brace, parenthesis, version bracket; (5) all functional reference graphs on 3 nodes over 8 edge kinds (alias, constrained alias, COMPONENTS OF, member, OF element, selection, CHOICE alternative, parameterized instantiation) with/without a value of the first type, nesting depth 2^k (quick <=4096, thorough <=65536) for 14 bracket-like recursions, and 16 parsed-but-unsupported notations in 6 positions; (6) boundary numbers: 18 number positions of the grammar (enumeration item / addition, named number, named bit, range ends, size, tag, OID arc, value, DEFAULT, version number) x 12 machine-word boundaries (i128/i64/u64/u32 extremes and their neighbours, -1, 0). Oracle: the worker answers within the watchdog with a non-panic outcome. Non-trivial: the input reached the compiler and a verdict came back.".into()
+        "seven complete families, both backends, every case in a worker subprocess with a 10 s watchdog, 8 MiB stack, 6 GiB address-space cap; compile + Display + contextualize of every error and warning: (1) all sequences of <=L tokens (quick 3, thorough 4) over a 40-token alphabet as whole input / module body / after `A ::=`; (2) every byte prefix of the 35 feature modules, token-boundary prefixes of the smallest real-world modules, and every single-token edit (delete, duplicate, swap, replace by / insert each of the 40 tokens) at every token position of the feature modules (thorough: + 30 real-world modules); (3) é/€/𝄞 inserted at every character position of the feature modules; (4) every feature module left inside an unterminated comment (line, block depth 1..3), cstring, bstring, brace, parenthesis, version bracket; (5) all functional reference graphs on 3 nodes over 8 edge kinds (alias, constrained alias, COMPONENTS OF, member, OF element, selection, CHOICE alternative, parameterized instantiation) with/without a value of the first type, nesting depth 2^k (quick <=4096, thorough <=65536) for 14 bracket-like recursions, and 16 parsed-but-unsupported notations in 6 positions; (6) boundary numbers: 18 number positions of the grammar (enumeration item / addition, named number, named bit, range ends, size, tag, OID arc, value, DEFAULT, version number) x 12 machine-word boundaries (i128/i64/u64/u32 extremes and their neighbours, -1, 0); (7) every feature module (thorough: + real-world modules) under each non-default generator option {non-opaque open types, From impls, no_std, wildcard imports} and all together. Oracle: the worker answers within the watchdog with a non-panic outcome. Non-trivial: the input reached the compiler and a verdict came back.".into()
     }
     fn assumptions(&self) -> Vec<String> {
         vec!["panic keys are file::function (resolved with syn from the panic Location) + message class; crashes/hangs are keyed by the input-shape label".into()]
@@ -585,6 +585,16 @@ impl Prop for C08 {
                 if mixed != *body {
                     push("unsupported", format!("hostile-mixed:{lab}"), module(&mixed), "both");
                 }
+            }
+        }
+        // (7) generator options: every feature module (thorough: and real-world module) under each non-default
+        // option of the rasn backend and under all of them together
+        for (n, t) in feature_modules() {
+            push("config", format!("config:feature:{n}"), t.clone(), "rasn-allcfg");
+        }
+        if tier.thorough() {
+            for (n, t) in real_world_modules(40, 400_000) {
+                push("config", format!("config:real:{n}"), t.clone(), "rasn-allcfg");
             }
         }
         // (6) boundary numbers: every position of the grammar that holds a number x every machine-word boundary
